@@ -1,26 +1,26 @@
-package main
+package partio
 
-func init() { extractors = append(extractors, factsPartIO) }
+import "verif/harness/internal/fx"
 
 // PartIO: arithmetic width of the byte offset / size computations in the four streaming loops.
-func factsPartIO() *group {
-	g := newGroup("PartIO")
+func Extract() *fx.Group {
+	g := fx.NewGroup("PartIO")
 	for _, pk := range []string{"mbr", "gpt"} {
-		f := parse("partition/" + pk + "/partition.go")
+		f := fx.Parse("partition/" + pk + "/partition.go")
 		for _, fn := range []string{"WriteContents", "ReadContents"} {
-			fd := findFunc(f, "Partition", fn)
+			fd := fx.FindFunc(f, "Partition", fn)
 			for _, v := range []string{"start", "size"} {
 				name := pk + fn + "_" + v
-				e := assignRHS(fd, v)
+				e := fx.AssignRHS(fd, v)
 				if e == nil {
 					if pk == "gpt" && v == "size" && fn == "WriteContents" {
 						continue // gpt WriteContents uses p.Size directly
 					}
-					g.missing(name)
+					g.Missing(name)
 					continue
 				}
-				g.str(name+"_expr", src(e))
-				g.nat(name+"_width", convWidth(e))
+				g.Str(name+"_expr", fx.Src(e))
+				g.Nat(name+"_width", fx.ConvWidth(e))
 			}
 		}
 	}
